@@ -254,7 +254,7 @@ def space(tier):
     seqs = [s for n in (1, 2, 3) for s in itertools.product(K2, repeat=n) if n <= 2 or (T and n == 3 and s[0] != "1/1")]
     for s1 in seqs:
         for s2 in seqs if T else seqs[:: 3]:
-            for sel in (None, ["chr2"], ["chr1", "chr2"]):
+            for sel in (None, ["chr2"], ["chr1", "chr2"], ["chr2", "chr1"]):
                 yield ([("chr1", list(s1)), ("chr2", list(s2))], "PS", False, sel, False)
     for s1 in seqs:
         yield ([("chr1", list(s1))], "PS", False, None, True)
@@ -265,10 +265,11 @@ def space(tier):
     for s1 in three[::3]:
         for s2 in three[1::3]:
             for s3 in three[2::3][:: 1 if T else 2]:
-                for sel in (["chr2", "chr3"], ["chr1", "chr3"], ["chr3"], ["chr1", "chr2"], ["chr2"]):
+                # (also named against the order of the file)
+                for sel in (["chr2", "chr3"], ["chr1", "chr3"], ["chr3"], ["chr1", "chr2"], ["chr2"], ["chr3", "chr1"], ["chr3", "chr2", "chr1"], ["chr2", "chr1"]):
                     yield ([("chr1", list(s1)), ("chr2", list(s2)), ("chr3", list(s3))], "PS", False, sel, False)
                 # contigs in karyotype order, which is not the order of their names as strings (chr10 < chr2)
-                for sel in (["chr1", "chr10"], ["chr10"], ["chr2", "chr10"]):
+                for sel in (["chr1", "chr10"], ["chr10"], ["chr2", "chr10"], ["chr10", "chr1"], ["chr10", "chr2"]):
                     yield ([("chr1", list(s1)), ("chr2", list(s2)), ("chr10", list(s3))], "PS", False, sel, False)
     # a set that continues behind two nested sets on one chromosome, a two-variant set at every offset on the other
     # (the ALL row must not let the pieces of one chromosome be cut by a block of another)
